@@ -527,5 +527,110 @@ pub fn drive(a: &Args) -> i32 {
     }
 }
 
+
+/// Race segments (real threads): `TrustProvider::remove_node` is called while `compute_global_trust` is in flight on a
+/// multi-thread runtime. Whatever the interleaving, afterwards the removed identity must read as 0 / unknown. The two
+/// operations are logged in the order the result shows they took effect (the computed map still lists the victim: the
+/// computation came first), followed by queries; then a second, quiescent computation and the same queries.
+pub fn race(a: &Args) -> i32 {
+    let out = a.str("out", "/dev/stdout");
+    let segments = a.num("segments", 6);
+    common::quiet_panics();
+    let rt = tokio::runtime::Builder::new_multi_thread().worker_threads(4).enable_all().build().expect("runtime");
+    let mut t = Trace::create(&out);
+    let mut rng = common::rng(1010);
+    for seg in 0..segments {
+        let n: usize = rng.gen_range(250..=500);
+        let ids: Vec<NodeId> = (0..n)
+            .map(|_| {
+                let mut b = [0u8; 32];
+                rng.fill(&mut b);
+                saorsa_core::network::peer_id_to_trust_node_id(&hex::encode(b))
+            })
+            .collect();
+        let npre = rng.gen_range(1..=3usize);
+        let pre: Vec<usize> = (1..=npre).collect();
+        let preset: HashSet<NodeId> = pre.iter().map(|&i| ids[i - 1].clone()).collect();
+        let eng = Arc::new(EigenTrustEngine::new(preset));
+        let s = Seg { ids: ids.clone(), peers: vec![String::new(); n], engs: vec![Eng { name: "A", eng: eng.clone(), node: None }] };
+        t.ev(json!({"ev":"Reset","seg":10_000 + seg,"kind":"race","n":n,"pre":pre,"via":"engine"}));
+        // a graph dense enough for the computation to take a while; the victims have edges but no statistics
+        let edges = n * rng.gen_range(6..14);
+        let victims: Vec<usize> = (0..rng.gen_range(1..=3)).map(|_| rng.gen_range(npre + 1..=n)).collect();
+        let delay_us: u64 = rng.gen_range(0..40_000);
+        let mut evs: Vec<Value> = Vec::new();
+        let computed = rt.block_on(async {
+            for _ in 0..edges {
+                let (f, to) = (rng.gen_range(1..=n), rng.gen_range(1..=n));
+                let ok = rng.gen_bool(0.85);
+                eng.update_local_trust(&ids[f - 1], &ids[to - 1], ok).await;
+                evs.push(json!({"ev":"Local","e":"A","from":f,"to":to,"ok":ok,"via":"update_local_trust"}));
+            }
+            for &v in &victims {
+                let w = rng.gen_range(1..=n);
+                eng.update_local_trust(&ids[w - 1], &ids[v - 1], true).await;
+                evs.push(json!({"ev":"Local","e":"A","from":w,"to":v,"ok":true,"via":"update_local_trust"}));
+            }
+            let e2 = eng.clone();
+            let h = tokio::spawn(async move { e2.compute_global_trust().await });
+            tokio::time::sleep(std::time::Duration::from_micros(delay_us)).await;
+            for &v in &victims {
+                eng.remove_node(&ids[v - 1]);
+                tokio::task::yield_now().await;
+            }
+            let g = h.await;
+            // let the spawned removal tasks finish
+            tokio::time::sleep(std::time::Duration::from_millis(300)).await;
+            g
+        });
+        for e in evs {
+            t.ev(e);
+        }
+        let g = match computed {
+            Ok(g) => g,
+            Err(e) => {
+                t.ev(json!({"ev":"Panic","e":"A","at":"compute_global_trust (race)","msg":e.to_string()}));
+                continue;
+            }
+        };
+        let before: Vec<usize> = victims.iter().copied().filter(|v| !g.contains_key(&ids[v - 1])).collect();
+        let after: Vec<usize> = victims.iter().copied().filter(|v| g.contains_key(&ids[v - 1])).collect();
+        for &v in &before {
+            t.ev(json!({"ev":"Remove","e":"A","n":v,"via":"TrustProvider::remove_node (before the concurrent computation)"}));
+        }
+        let mut v = vec![0i64; n];
+        let mut dom: Vec<usize> = Vec::new();
+        let mut bad: Vec<usize> = Vec::new();
+        for (i, id) in ids.iter().enumerate() {
+            if let Some(x) = g.get(id) {
+                dom.push(i + 1);
+                let (q, fin) = ppb(*x);
+                v[i] = q;
+                if !fin {
+                    bad.push(i + 1);
+                }
+            }
+        }
+        t.ev(json!({"ev":"Compute","e":"A","dom":dom,"v":v,"bad":bad,"foreign":g.len() - dom.len(),"ms":0,"vms":0,"fb":false,"race_delay_us":delay_us}));
+        for &vv in &after {
+            t.ev(json!({"ev":"Remove","e":"A","n":vv,"via":"TrustProvider::remove_node (during the computation)"}));
+        }
+        for &vv in &victims {
+            s.query(&mut t, "A", vv);
+        }
+        // quiescent: a second computation, then the same queries and a few others
+        rt.block_on(async { s.compute(&mut t, "A").await });
+        for &vv in &victims {
+            s.query(&mut t, "A", vv);
+        }
+        for _ in 0..3 {
+            s.query(&mut t, "A", rng.gen_range(1..=n));
+        }
+    }
+    let n = t.finish();
+    eprintln!("c10 race: {n} events");
+    0
+}
+
 #[allow(dead_code)]
 fn _unused(_: Value) {}
